@@ -10,6 +10,7 @@ def run(ctx):
         (2, C.gen_group),
         (1, C.gen_hub),
         (1, C.gen_shared_expiry),
+        (1, C.gen_shared_group_expiry),
     ]
     return C.run_check(ctx, "C02", gens, 110, 6000, router_n=60 if ctx.quick else 3000)
 
